@@ -106,10 +106,17 @@ package scanner
 //@ spec escBase(c int) int := ('0' <= c && c <= '7') ? 8 : 16
 //@ spec escSkip(c int) int := ('0' <= c && c <= '7') ? 0 : 1
 //@ pred escDigitOK(b int, base int) := base == 8 ? ('0' <= b && b <= '7') : (('0' <= b && b <= '9') || ('a' <= b && b <= 'f') || ('A' <= b && b <= 'F'))
+//@ # scratchEscX: the value accumulated from the digits (copied at the end of every iteration of the digit loop): an
+//@ # escape is accepted only if it denotes a byte (octal, \x) or a Unicode code point that is not a surrogate (\u, \U)
+//@ ghost scratchEscX int
 //@ func (*Scanner).scanEscape
 //@   requires inv(s)
-//@   assigns s.ch, s.offset, s.rdOffset, s.lineOffset, s.ErrorCount
+//@   assigns s.ch, s.offset, s.rdOffset, s.lineOffset, s.ErrorCount, scratchEscX
+//@   at entry set scratchEscX = 0
+//@   at backedge 1 set scratchEscX = int(x)
 //@   ensures inv(s) && s.offset >= old(s.offset)
+//@   ensures [esc-code-point] result && !escSimple(old(s.ch), quote) ==>
+//@           scratchEscX <= (old(s.ch) == 'u' || old(s.ch) == 'U' ? 1114111 : 255) && !(55296 <= scratchEscX && scratchEscX < 57344)
 //@   ensures [esc-simple] escSimple(old(s.ch), quote) ==> result && s.offset == old(s.rdOffset)
 //@   ensures [esc-unknown] !escSimple(old(s.ch), quote) && escN(old(s.ch)) == 0 ==> !result && s.offset == old(s.offset)
 //@   ensures [esc-digits] !escSimple(old(s.ch), quote) && escN(old(s.ch)) > 0 ==>
@@ -119,6 +126,7 @@ package scanner
 //@           (s.offset < old(s.offset) + escSkip(old(s.ch)) + escN(old(s.ch)) ==> !result && !escDigitOK(s.ch, escBase(old(s.ch))))
 //@ loop (*Scanner).scanEscape#1
 //@   invariant inv(s) && s.offset >= old(s.offset) && n >= 0
+//@   invariant [esc-value] scratchEscX == int(x) && max == (old(s.ch) == 'u' || old(s.ch) == 'U' ? 1114111 : 255)
 //@   invariant [esc-state] !escSimple(old(s.ch), quote) && escN(old(s.ch)) > 0 && base == escBase(old(s.ch)) &&
 //@           s.offset == old(s.offset) + escSkip(old(s.ch)) + escN(old(s.ch)) - n
 //@   invariant [esc-prefix] forall k in old(s.offset) + escSkip(old(s.ch))..s.offset :: escDigitOK(s.src[k], escBase(old(s.ch)))
